@@ -87,6 +87,34 @@ def _lower(stmts: list, conv) -> list:
     return out
 
 
+def _return_in_loop(stmts) -> bool:
+    for st in stmts:
+        for n in _walk_no_defs(st):
+            if isinstance(n, (ast.For, ast.AsyncFor, ast.While)) and any(isinstance(x, ast.Return) for b in n.body + n.orelse for x in _walk_no_defs(b)):
+                return True
+    return False
+
+
+def _returns_to_breaks(stmts: list, conv) -> list:
+    out = []
+    for st in stmts:
+        if isinstance(st, ast.Return):
+            out.extend(conv(st))
+            out.append(ast.copy_location(ast.Break(), st))
+            continue
+        if isinstance(st, (ast.FunctionDef, ast.AsyncFunctionDef, ast.ClassDef)):
+            out.append(st)
+            continue
+        for fld in ("body", "orelse", "finalbody"):
+            blk = getattr(st, fld, None)
+            if isinstance(blk, list) and blk and isinstance(blk[0], ast.stmt):
+                setattr(st, fld, _returns_to_breaks(blk, conv))
+        for h in getattr(st, "handlers", []) or []:
+            h.body = _returns_to_breaks(h.body, conv)
+        out.append(st)
+    return out
+
+
 def _loop_level(stmts):
     """Statements of a loop body that belong to THIS loop (not to nested loops / defs)."""
     stack = list(stmts)
@@ -156,6 +184,28 @@ class _Renamer(ast.NodeTransformer):
         if node.name and node.name in self.rename:
             node.name = self.rename[node.name]
         return node
+
+    def _nested_def(self, node):
+        # a function defined inside the helper: its own parameters and locals shadow the
+        # helper's; everything else it mentions is the helper's (closure) and is rewritten
+        a = node.args
+        shadow = {x.arg for x in a.posonlyargs + a.args + a.kwonlyargs}
+        if a.vararg:
+            shadow.add(a.vararg.arg)
+        if a.kwarg:
+            shadow.add(a.kwarg.arg)
+        shadow |= {x.id for x in ast.walk(node) if isinstance(x, ast.Name) and isinstance(x.ctx, ast.Store)}
+        saved = (self.rename, self.subst)
+        self.rename = {k: v for k, v in self.rename.items() if k not in shadow}
+        self.subst = {k: v for k, v in self.subst.items() if k not in shadow}
+        node.body = [self.visit(s_) for s_ in node.body]
+        self.rename, self.subst = saved
+        if node.name in self.rename:
+            node.name = self.rename[node.name]
+        return node
+
+    visit_FunctionDef = _nested_def
+    visit_AsyncFunctionDef = _nested_def
 
 
 def _vararg_only_forwarded(fn, name: str) -> bool:
@@ -229,8 +279,12 @@ class Inliner:
             if f.name.startswith("__"):
                 continue
             if not f.name.startswith("_"):
-                # a module-level function that is not part of the package's public API
-                if f.cls is not None or f.name in exported or f.name in ("main", "run"):
+                # a module-level function that is not part of the package's public API, or a
+                # method of a private helper class (`_TeardownEntry.invoke`)
+                if f.cls is not None:
+                    if not f.cls.name.startswith("_") or f.cls.name in exported:
+                        continue
+                elif f.name in exported or f.name in ("main", "run"):
                     continue
             # on a reference cycle (a spawned function that calls back into its spawner) only a
             # pure extraction - exactly one call site - is folded back; anything else would
@@ -240,7 +294,11 @@ class Inliner:
             decos = set(f.decorators)
             if decos - {"staticmethod"}:
                 continue
-            if f.is_generator or f.nested:
+            if f.is_generator:
+                continue
+            # helpers that define functions of their own: fine unless those rebind the
+            # helper's variables (nonlocal)
+            if f.nested and any(isinstance(x, ast.Nonlocal) for g_ in f.nested.values() for x in ast.walk(g_.node)):
                 continue
             if f.name in used_as_value:
                 continue
@@ -473,6 +531,9 @@ class Inliner:
                 assigned.add(node.id)
             elif isinstance(node, ast.ExceptHandler) and node.name:
                 assigned.add(node.name)
+        for node in g.node.body and ast.walk(g.node):
+            if isinstance(node, (ast.FunctionDef, ast.AsyncFunctionDef)) and node is not g.node:
+                assigned.add(node.name)
         subst, rename, binds = {}, {}, []
         for p_ in params:
             expr = actual[p_]
@@ -523,7 +584,14 @@ class Inliner:
                     return []
                 return [ast.copy_location(ast.Expr(value=ret.value), ret)]
 
-            lowered = _lower(body, conv)
+            try:
+                lowered = _lower(body, conv)
+            except NotInlinable:
+                # returns inside try / with blocks (but not inside the helper's own loops): run
+                # the body in a loop that executes exactly once and leave it with `break`
+                if _return_in_loop(body):
+                    raise
+                lowered = [ast.copy_location(ast.While(test=ast.Constant(value=True), body=_returns_to_breaks(copy.deepcopy(body), conv) + [ast.copy_location(ast.Break(), stmt)], orelse=[]), stmt)]
             if mode == "assign" and not _always_returns(g.node.body):
                 # falls off the end: result is None on that path -> pre-assign
                 binds.append(ast.copy_location(ast.Assign(targets=[copy.deepcopy(target)], value=ast.Constant(value=None), lineno=stmt.lineno), stmt))
@@ -631,7 +699,217 @@ class Inliner:
             from .effects import Analysis
 
             self.a = Analysis(self.p)
+        if self.scalarise_records():
+            changed_any = True
+            for mod in self.p.modules.values():
+                normalize_tree(mod.tree)
+            self.p.reindex()
+            from .effects import Analysis as _A2
+
+            self.a = _A2(self.p)
         return changed_any
+
+    # ------------------------------------------------------------------ records
+    def record_classes(self) -> dict:
+        """Private NamedTuple / dataclass helper classes: name -> (ClassInfo, [fields], is_namedtuple)."""
+        out = {}
+        for ci in self.p.classes.values():
+            if not ci.name.startswith("_"):
+                continue
+            is_nt = any("NamedTuple" in ast.unparse(b) for b in ci.bases)
+            is_dc = "dataclass" in ci.decorators
+            if not (is_nt or is_dc):
+                continue
+            fields = [st.target.id for st in ci.node.body if isinstance(st, ast.AnnAssign) and isinstance(st.target, ast.Name) and not ast.unparse(st.annotation).startswith("ClassVar")]
+            if fields:
+                out[ci.name] = (ci, fields, is_nt)
+        return out
+
+    def scalarise_records(self) -> bool:
+        """A local that holds a record of a private helper class and is only ever read field by
+        field is replaced by one local per field (`entry = stack.pop(); entry.callback(...)`
+        -> `entry__callback, entry__flag = stack.pop(); entry__callback(...)`), and constructor
+        calls of private NamedTuples become plain tuples.  Methods of such classes have been
+        inlined before (they are candidates of the helper inlining)."""
+        recs = self.record_classes()
+        if not recs:
+            return False
+        changed = False
+        for f in list(self.p.all_functions()):
+            if f.is_lambda:
+                continue
+            # candidate locals: exactly one binding (Assign to a Name, or a for-loop target Name)
+            binds: dict = {}
+            for n in walk_own(f.node):
+                if isinstance(n, ast.Assign) and len(n.targets) == 1 and isinstance(n.targets[0], ast.Name):
+                    binds.setdefault(n.targets[0].id, []).append(("assign", n))
+                elif isinstance(n, (ast.For, ast.AsyncFor)) and isinstance(n.target, ast.Name):
+                    binds.setdefault(n.target.id, []).append(("for", n))
+                elif isinstance(n, ast.Name) and isinstance(n.ctx, (ast.Store, ast.Del)):
+                    binds.setdefault(n.id, [])
+            stores = {}
+            for n in walk_own(f.node):
+                if isinstance(n, ast.Name) and isinstance(n.ctx, (ast.Store, ast.Del)):
+                    stores[n.id] = stores.get(n.id, 0) + 1
+            parents = {}
+            for n in walk_own(f.node):
+                for c in ast.iter_child_nodes(n):
+                    parents[id(c)] = n
+            for v, bl in binds.items():
+                if len(bl) != 1 or stores.get(v) != 1 or v in f.params:
+                    continue
+                kind, bnode = bl[0]
+                loads = [n for n in walk_own(f.node) if isinstance(n, ast.Name) and n.id == v and isinstance(n.ctx, ast.Load)]
+                if not loads:
+                    continue
+                used = set()
+                ok = True
+                splats = []
+                meth_refs = []
+                method_names = {m_ for _ci, _f, _nt in recs.values() for m_ in _ci.methods if not m_.startswith("__")}
+                for ld in loads:
+                    par = parents.get(id(ld))
+                    if isinstance(par, ast.Attribute) and par.value is ld and isinstance(par.ctx, ast.Load) and par.attr in method_names:
+                        meth_refs.append((ld, par))  # bound method taken as a value (callback)
+                    elif isinstance(par, ast.Attribute) and par.value is ld and isinstance(par.ctx, ast.Load):
+                        used.add(par.attr)
+                    elif isinstance(par, ast.Starred) and isinstance(parents.get(id(par)), ast.Call) and par in parents[id(par)].args:
+                        splats.append((ld, par, parents[id(par)]))  # f(*record): all fields, in order
+                    else:
+                        ok = False
+                if not ok or any(v in {x.id for x in ast.walk(g.node) if isinstance(x, ast.Name)} for g in self.p.all_functions() if g.parent is f):
+                    continue
+                # which record class?
+                ctor = None
+                if kind == "assign" and isinstance(bnode.value, ast.Call):
+                    cal = self.a.callee(f, bnode.value)
+                    if cal.kind == "class" and cal.cls is not None and cal.cls.name in recs:
+                        ctor = cal.cls.name
+                owners = [nm for nm, (_ci, flds, _nt) in recs.items() if used <= set(flds)]
+                cname = ctor or (owners[0] if len(owners) == 1 else None)
+                if cname is None:
+                    continue
+                ci, fields, is_nt = recs[cname]
+                if not used <= set(fields) or (splats and not is_nt):
+                    continue
+                names = {fl: f"{v}__{fl}" for fl in fields}
+                if meth_refs and not ctor:
+                    continue
+                if ctor:
+                    call = bnode.value
+                    if any(isinstance(a_, ast.Starred) for a_ in call.args) or any(k.arg is None for k in call.keywords):
+                        continue
+                    if any(par_.attr not in ci.methods or "staticmethod" in ci.methods[par_.attr].decorators or "classmethod" in ci.methods[par_.attr].decorators for _ld, par_ in meth_refs):
+                        continue
+                    vals = {}
+                    for i, a_ in enumerate(call.args):
+                        if i < len(fields):
+                            vals[fields[i]] = a_
+                    for k in call.keywords:
+                        vals[k.arg] = k.value
+                    if set(vals) != set(fields):
+                        continue
+                    new = [ast.copy_location(ast.Assign(targets=[ast.Name(id=names[fl], ctx=ast.Store())], value=vals[fl], lineno=bnode.lineno), bnode) for fl in fields]
+                    # a bound method of the record used as a value becomes a closure over the fields
+                    for mname in sorted({par_.attr for _ld, par_ in meth_refs}):
+                        m_ = ci.methods[mname]
+                        fn = copy.deepcopy(m_.node)
+                        self_name = fn.args.args[0].arg
+                        fn.args.args = fn.args.args[1:]
+                        fn.name = f"{v}__{mname}"
+                        fn.decorator_list = []
+
+                        class _S(ast.NodeTransformer):
+                            def visit_Attribute(self_, node):
+                                self_.generic_visit(node)
+                                if isinstance(node.value, ast.Name) and node.value.id == self_name and node.attr in names and isinstance(node.ctx, ast.Load):
+                                    return ast.copy_location(ast.Name(id=names[node.attr], ctx=ast.Load()), node)
+                                return node
+
+                        fn = _S().visit(fn)
+                        if any(isinstance(x, ast.Name) and x.id == self_name for x in ast.walk(fn)):
+                            new = None  # the method uses `self` in another way: leave everything alone
+                            break
+                        new.append(fn)
+                    if new is None or not self._replace_stmt(f.node, bnode, new):
+                        continue
+                    for _ld, par_ in meth_refs:
+                        gp_ = parents.get(id(par_))
+                        repl_ = ast.copy_location(ast.Name(id=f"{v}__{par_.attr}", ctx=ast.Load()), par_)
+                        for fld_, val in ast.iter_fields(gp_):
+                            if val is par_:
+                                setattr(gp_, fld_, repl_)
+                            elif isinstance(val, list):
+                                for i_, x in enumerate(val):
+                                    if x is par_:
+                                        val[i_] = repl_
+                elif is_nt:
+                    tgt = ast.Tuple(elts=[ast.Name(id=names[fl], ctx=ast.Store()) for fl in fields], ctx=ast.Store())
+                    if kind == "assign":
+                        bnode.targets = [tgt]
+                    else:
+                        bnode.target = tgt
+                else:
+                    continue
+                for ld, star, call in splats:
+                    k = call.args.index(star)
+                    call.args[k : k + 1] = [ast.copy_location(ast.Name(id=names[fl], ctx=ast.Load()), star) for fl in fields]
+                splat_ids = {id(ld) for ld, _s, _c in splats} | {id(ld) for ld, _p in meth_refs}
+                for ld in loads:
+                    if id(ld) in splat_ids:
+                        continue
+                    par = parents.get(id(ld))
+                    gp = parents.get(id(par))
+                    repl = ast.copy_location(ast.Name(id=names[par.attr], ctx=ast.Load()), par)
+                    if gp is None:
+                        continue
+                    for fld_, val in ast.iter_fields(gp):
+                        if val is par:
+                            setattr(gp, fld_, repl)
+                        elif isinstance(val, list):
+                            for i_, x in enumerate(val):
+                                if x is par:
+                                    val[i_] = repl
+                changed = True
+                self.log.append(f"record {cname} scalarised: {v} in {f.qualname}")
+        # constructor calls of private NamedTuples are tuples
+        for mod in self.p.modules.values():
+            class T(ast.NodeTransformer):
+                def visit_Call(self_, node):
+                    nonlocal changed
+                    self_.generic_visit(node)
+                    if isinstance(node.func, ast.Name) and node.func.id in recs and recs[node.func.id][2] and recs[node.func.id][0].module is mod:
+                        ci, fields, _ = recs[node.func.id]
+                        if any(isinstance(a_, ast.Starred) for a_ in node.args) or any(k.arg is None for k in node.keywords):
+                            return node
+                        vals = {}
+                        for i, a_ in enumerate(node.args):
+                            if i < len(fields):
+                                vals[fields[i]] = a_
+                        for k in node.keywords:
+                            vals[k.arg] = k.value
+                        if set(vals) != set(fields):
+                            return node
+                        changed = True
+                        return ast.copy_location(ast.Tuple(elts=[vals[fl] for fl in fields], ctx=ast.Load()), node)
+                    return node
+
+            T().visit(mod.tree)
+            ast.fix_missing_locations(mod.tree)
+        return changed
+
+    @staticmethod
+    def _replace_stmt(root, old, new_list) -> bool:
+        for n in ast.walk(root):
+            for fld in ("body", "orelse", "finalbody"):
+                blk = getattr(n, fld, None)
+                if isinstance(blk, list) and old in blk:
+                    i = blk.index(old)
+                    blk[i : i + 1] = new_list
+                    for s_ in new_list:
+                        ast.fix_missing_locations(s_)
+                    return True
+        return False
 
     def _rewrite_block_owner(self, f: FuncInfo, node, cands, remaining, inlined) -> bool:
         changed = False
